@@ -181,9 +181,36 @@ fn a_record(owner: &str, ttl: u32) -> Vec<u8> {
     m
 }
 
+/// Natural RDATA in which every embedded name is a pointer to offset 12 (the owner of the lead
+/// record, "lead.example"): the RDATA is shorter on the wire than its expanded content.
+fn natural_rdata_pointing(code: u16) -> Option<Vec<u8>> {
+    let sch = schema::schema(code)?;
+    if !sch.fields.iter().any(|(_, k)| matches!(k, schema::Kind::Name(_))) {
+        return None;
+    }
+    let mut vals = gen::default_vals(sch);
+    for v in vals.iter_mut() {
+        if let schema::Val::Name(n) = v {
+            *n = RefName::txt("lead.example");
+        }
+    }
+    let mut e = Vec::new();
+    schema::encode_vals_with(sch, &vals, &mut e, &mut |_, o, _| o.extend_from_slice(&[0xc0, 0x0c]));
+    Some(e)
+}
+
 /// All messages for one middle-record type code.
 pub fn family(code: u16, extra: usize) -> Vec<(Vec<u8>, bool)> {
-    let nat = natural_rdata(code);
+    let mut out = family_with(natural_rdata(code), code, extra, false);
+    if let Some(nat) = natural_rdata_pointing(code) {
+        // surplus sizes must reach the expanded size of the content (14 bytes per name instead of 2)
+        let names = schema::schema(code).map(|s| s.fields.iter().filter(|(_, k)| matches!(k, schema::Kind::Name(_))).count()).unwrap_or(0);
+        out.extend(family_with(nat, code, extra.max(12 * names + 4), true));
+    }
+    out
+}
+
+fn family_with(nat: Vec<u8>, code: u16, extra: usize, lead_only: bool) -> Vec<(Vec<u8>, bool)> {
     let mut fillers: Vec<Vec<u8>> = Vec::new();
     fillers.push(vec![0u8; extra + 4]);
     {
@@ -205,6 +232,9 @@ pub fn family(code: u16, extra: usize) -> Vec<(Vec<u8>, bool)> {
             }
             for nsent in 0..=2usize {
                 for placement in 0..3u8 {
+                    if lead_only && placement != 0 {
+                        continue; // the pointers need the lead record's owner at offset 12
+                    }
                     // 0: lead + middle + sentinels in answers; 1: middle in answers, sentinels in additional; 2: all in additional
                     let lead = placement == 0;
                     let mut body = Vec::new();
@@ -329,6 +359,35 @@ pub fn run(ctx: &Ctx) {
                 let mut m = m.clone();
                 m[2] = fl[0];
                 m[3] = fl[1];
+                // the same message behind a question (the cut right after the question section is
+                // where a "truncated reply" shortcut would stop)
+                {
+                    let mut mq = m[..12].to_vec();
+                    mq[5] = 1;
+                    mq.extend_from_slice(&[4, b'l', b'e', b'a', b'd', 7, b'e', b'x', b'a', b'm', b'p', b'l', b'e', 0, 0, 1, 0, 1]);
+                    let qlen = mq.len() - 12;
+                    mq.extend_from_slice(&m[12..]);
+                    // pointers in the body refer to offset 12, which now holds the question name "lead.example": still valid
+                    for cut in 12..mq.len() {
+                        t.evals += 1;
+                        np += 1;
+                        let (f, tag, acc) = check_msg(&mq[..cut], false);
+                        if acc {
+                            t.nontrivial += 1;
+                        }
+                        t.outcome(tag);
+                        if !f.is_empty() {
+                            ctx.violations(f);
+                        }
+                    }
+                    let _ = qlen;
+                    t.evals += 1;
+                    let (f, tag, _) = check_msg(&mq, walk(&mq).is_ok());
+                    t.outcome(tag);
+                    if !f.is_empty() {
+                        ctx.violations(f);
+                    }
+                }
                 for cut in 12..m.len() {
                     t.evals += 1;
                     np += 1;
@@ -346,7 +405,7 @@ pub fn run(ctx: &Ctx) {
         }
     }
     ctx.merge(t);
-    ctx.space("proper prefixes: every cut of every well-framed message of 5 type families under 4 header flag variants (TC set and clear)", np, "complete");
+    ctx.space("proper prefixes: every cut of every well-framed message of 5 type families, alone and behind a question, under 4 header flag variants (TC set and clear)", np, "complete");
     {
         // two OPT records among A records, at every pair of positions
         let mut t = Tally::default();
@@ -410,6 +469,25 @@ pub fn run(ctx: &Ctx) {
         });
         ctx.space("name shapes: owner names of 0..=130 inline labels with and without a closing pointer, a label of every length 1..=63 before a pointer, chains of every length up to 700 (2100 thorough) and 2000/4000/8000 label-less backward pointers reached from an owner, an MX exchange and a following record; all natural RDLENGTHs, acceptance required exactly when the envelope walker succeeds", n_shapes as u64, "complete");
         ctx.space("size sweep: reference encodings (plain and compressed) of every string length 0..=255, tail length 0..=600, label count 1..=127, label length 1..=63, name length 3..=255, list sizes and 2..400 distinct repeated names", (msgs.len() - n_shapes) as u64, "complete");
+    }
+    {
+        // every valid compression layout of records of every name-bearing type
+        let (n, capped) = super::c11::for_each_layout(ctx, 4000, &|m, t| {
+            t.evals += 1;
+            let expect = walk(m).is_ok();
+            let (f, tag, acc) = check_msg(m, expect);
+            if acc {
+                t.nontrivial += 1;
+            }
+            t.outcome(tag);
+            if !f.is_empty() {
+                ctx.violations(f);
+            }
+        });
+        if capped {
+            ctx.cap_hit("layout enumeration capped at 4000 layouts for some packet");
+        }
+        ctx.space("compression layouts: every valid layout (in place / label prefix + pointer / bare pointer, for every name occurrence) of a question + a record of every name-bearing type (compressible or not, incl. IPSECKEY gateways, SVCB targets, RRSIG signers) + an A record, over small name alphabets", n, "complete");
     }
     let fam = family(1, extra);
     ctx.sample(json!({"kind": "msg", "msg": hex(&fam[fam.len() / 2].0), "expect_accept": fam[fam.len() / 2].1}));
